@@ -473,3 +473,111 @@ contract(F, 'Pseed.__embed__', props=('C13',), params={'self': 'self', 'inval': 
          policies={STREAM: sd_stream, 'sc3/base/stream.py::embed': pg_embed},
          class_modules={'Pseed': F}, hooks={'getattr': sd_getattr, 'construct': sd_construct, 'setattr': sd_setattr},
          opts={'generator_trace': True}, native=False)
+
+
+# ---- Plazy (funcpatterns.py): the pattern is computed when it is embedded ----------------------------------------------------------
+# the function is called ONCE with the input value; what it returns is embedded in place with the same input value; the
+# embedding's result is the result
+def lazy_post(c):
+    t = c.trace
+    calls = [e for e in t if e[0] == 'func-called']
+    em = [e for e in t if e[0] == 'embed']
+    yf = [e for e in t if e[0] == 'yield-from']
+    inval = c._params['inval']
+    ok = (len(calls) == 1 and len(em) == 1 and len(yf) == 1 and len(calls[0][1]) == 1 and calls[0][1][0] is inval and not calls[0][2]
+          and em[0][1] is calls[0][3] and em[0][2] is inval and yf[0][1] is em[0][3] and c.resultv is yf[0][2])
+    return z3.BoolVal(bool(ok))
+
+
+contract(FP, 'Plazy.__embed__', props=('C13',), params={'self': 'self', 'inval': 'obj'},
+         ensures=[('function-called-once-with-the-input;its-result-embedded-in-place-with-the-same-input', lazy_post)],
+         fields={'Plazy': {'func': 'obj'}}, class_modules={'Plazy': FP},
+         policies={'sc3/base/stream.py::embed': pg_embed}, hooks={'call': fn_call}, opts={'generator_trace': True},
+         modifies=[], native=False)
+
+
+# ---- Prout.__embed__ (funcpatterns.py): a generator function embedded in place -----------------------------------------------------
+# the generator function is called ONCE (with the input value iff it takes one); its first value is yielded; then every pass
+# SENDS the value this embedding was handed last (what its own previous yield received - not the first input again: the
+# defect repaired by the `fix:` commit "Prout embedded in another pattern passes on the input values it is sent") and
+# yields the answer.  A plain function is called once and its value is the result (nothing is yielded).
+def pr_call(eng, f, args, kwargs, st, node):
+    if f.k == 'obj' and f.oid == 'self.func':
+        r = V('ref', cls='Gen', oid='the-iterator')
+        st.trace.append(('func-called', tuple(args), dict(kwargs), r))
+        return [(st, r)]
+    return None
+
+
+def pr_step(kind, g, args, eng, st, node):
+    ok, bad = st, st.fork()
+    v = V('obj', oid='answer!%d' % next(eng.counter))
+    ok.trace.append((kind, g, tuple(args), v))
+    bad.trace.append((kind + '-ended', g, tuple(args)))
+    return [(ok, v), (bad, Raised(eng.make_exc('StopIteration', node=node)))]
+
+
+def pr_builtin(eng, name, args, kwargs, st, node):
+    if name == 'next' and len(args) == 1 and args[0].k == 'ref' and args[0].cls == 'Gen':
+        return pr_step('first', args[0], [], eng, st, node)
+    return None
+
+
+def pr_getattr(eng, obj, name, st, node):
+    if obj.k == 'ref' and obj.cls == 'Gen' and name == 'send':
+        def send(eng, a, kw, st, node, _g=obj):
+            return pr_step('send', _g, a, eng, st, node)
+        return [(st, V('func', py=('spec', send)))]
+    if obj.k == 'exc' and name == 'value':
+        return [(st, V('obj', oid='return-value-of-the-generator'))]
+    return None
+
+
+def prout_pass(c, L):
+    """inductive form of "what is sent is what this embedding received last": the local that carries the input value holds,
+    when the loop is entered, what the FIRST yield received; every pass sends that local's value as it stands at the head
+    of the pass and stores in it what THIS pass's yield receives"""
+    if L.phase == 'entry':
+        ys = [e for e in c.trace if e[0] == 'yield']
+        if len(ys) != 1 or len(ys[0]) < 3:
+            return z3.BoolVal(False)
+        return z3.BoolVal(c.st.env['inval'] is ys[0][2])
+    full = since(c.trace, 0)
+    if not full or L.phase != 'after':
+        return z3.BoolVal(True)
+    sends = [e for e in full if e[0] == 'send']
+    ys = [e for e in full if e[0] == 'yield']
+    if len(sends) != 1 or len(ys) != 1 or ys[0][1] is not sends[0][3] or len(ys[0]) < 3:
+        return z3.BoolVal(False)
+    at_head = c.st.ghost.get('inval_at_head')
+    return z3.BoolVal(len(sends[0][2]) == 1 and sends[0][2][0] is at_head and c.st.env['inval'] is ys[0][2])
+
+
+def prout_post(c):
+    t = c.trace
+    calls = [e for e in t if e[0] == 'func-called']
+    takes = c.pre.self._func_has_inval
+    isgen = c.pre.self._func_isgenfunc
+    if len(calls) != 1 or calls[0][2]:
+        return z3.BoolVal(False)
+    a = calls[0][1]
+    cl = [z3.BoolVal(len(a) == 1 and a[0] is c._params['inval']) == takes, z3.BoolVal(len(a) == 0) == z3.Not(takes)]
+    firsts = [e for e in t if e[0] in ('first', 'first-ended')]
+    if not firsts:
+        # a plain function: its value is the result, nothing is yielded
+        cl += [z3.Not(isgen), z3.BoolVal(c.resultv is calls[0][3] and not [e for e in t if e[0] == 'yield'])]
+        return z3.And(*cl)
+    cl.append(isgen)
+    if firsts[0][0] == 'first':
+        ys = [e for e in t if e[0] == 'yield']
+        cl.append(z3.BoolVal(bool(ys) and ys[0][1] is firsts[0][3]))                    # the first value is yielded as it is
+    cl.append(z3.BoolVal(c.resultv.k == 'obj' and c.resultv.oid == 'return-value-of-the-generator'))
+    return z3.And(*cl)
+
+
+contract(FP, 'Prout.__embed__', props=('C13',), params={'self': 'self', 'inval': 'obj'},
+         ensures=[('called-once(with-the-input-iff-it-takes-one);generator:first-value-yielded,its-return-value-returned;function:its-value', prout_post)],
+         fields={'Prout': {'func': 'obj', '_func_has_inval': 'bool', '_func_isgenfunc': 'bool'}, 'Gen': {}},
+         loops={0: Loop(inv=prout_pass, kinds={'inval': 'obj'}, havoc_hook=remember_inval)},
+         class_modules={'Prout': FP, 'Gen': FP}, hooks={'call': pr_call, 'builtin_first': pr_builtin, 'getattr': pr_getattr},
+         opts={'generator_trace': True}, modifies=[], native=False)
